@@ -10,8 +10,6 @@ import (
 	"strings"
 	"time"
 
-	"golang.org/x/tools/go/packages"
-
 	"verif/internal/world"
 	"verif/tape"
 )
@@ -49,14 +47,7 @@ func smallAlphabetWorld(t *tape.Tape) *world.World {
 // callSiteProblems type-checks the world and verifies exactness of every
 // call site and uniqueness of generated parameter lists per plugin.
 func callSiteProblems(worldDir string, w *world.World, checkDedup bool) []string {
-	cfg := &packages.Config{
-		Mode: packages.NeedName | packages.NeedFiles | packages.NeedSyntax | packages.NeedTypes | packages.NeedTypesInfo | packages.NeedImports | packages.NeedDeps,
-		Dir:  worldDir, Env: goEnv(), Tests: true,
-	}
-	pkgs, err := packages.Load(cfg, "./p")
-	if err != nil {
-		return []string{"load: " + err.Error()}
-	}
+	pkgs, errs := typecheckWorld(worldDir, "./p")
 	var probs []string
 	seen := map[string]bool{}
 	add := func(s string) {
@@ -65,14 +56,14 @@ func callSiteProblems(worldDir string, w *world.World, checkDedup bool) []string
 			probs = append(probs, s)
 		}
 	}
+	for _, e := range errs {
+		add("type error: " + e)
+	}
 	for _, p := range pkgs {
-		for _, e := range p.Errors {
-			add("type error: " + strings.ReplaceAll(e.Error(), worldDir+"/", ""))
-		}
-		if len(p.Errors) > 0 || p.TypesInfo == nil {
+		if len(p.Errors) > 0 || p.Types == nil {
 			continue
 		}
-		for _, f := range p.Syntax {
+		for _, f := range p.Files {
 			if filepath.Base(p.Fset.Position(f.Pos()).Filename) == "derived.gen.go" {
 				continue
 			}
@@ -85,24 +76,24 @@ func callSiteProblems(worldDir string, w *world.World, checkDedup bool) []string
 				if !ok {
 					return true
 				}
-				fn, ok := p.TypesInfo.Uses[id].(*types.Func)
+				fn, ok := p.Info.Uses[id].(*types.Func)
 				if !ok || filepath.Base(p.Fset.Position(fn.Pos()).Filename) != "derived.gen.go" {
 					return true
 				}
 				sig := fn.Type().(*types.Signature)
 				if sig.Params().Len() != len(c.Args) {
-					return true // curried / other forms: not used in C11 worlds
+					return true // curried / other forms: judged by the type checker only
 				}
 				for i, a := range c.Args {
-					at := p.TypesInfo.TypeOf(a)
+					at := p.Info.TypeOf(a)
 					if at != nil && !types.Identical(at, sig.Params().At(i).Type()) {
-						add(fmt.Sprintf("call %s at %s passes %s where the generated function takes %s", id.Name, p.Fset.Position(c.Pos()), at, sig.Params().At(i).Type()))
+						add(fmt.Sprintf("call %s at %s passes %s where the generated function takes %s", id.Name, strings.TrimPrefix(p.Fset.Position(c.Pos()).String(), worldDir+"/"), at, sig.Params().At(i).Type()))
 					}
 				}
 				return true
 			})
 		}
-		if checkDedup {
+		if checkDedup && !strings.HasSuffix(p.Name, "_test") {
 			// per plugin (longest matching prefix), generated functions have pairwise different parameter lists
 			var prefixes []string
 			plug := map[string]string{}
@@ -153,6 +144,7 @@ func c11Case(ctx *genCtx, ts *tape.Set, dir string) *genResult {
 		prof.NamedComposite = false
 		prof.Concurrency = false
 		prof.UserFuncs = true
+		prof.Clusters = true
 		if prof.MaxCalls < 3 {
 			prof.MaxCalls = 3
 		}
